@@ -1,6 +1,7 @@
 pub mod c02;
 pub mod c06;
 pub mod c10;
+pub mod c11;
 pub mod c12;
 pub mod c14;
 pub mod c15;
@@ -13,6 +14,7 @@ pub fn parts_for(property: &str) -> Option<Vec<Box<dyn PartDyn>>> {
         "C02" => c02::parts(),
         "C06" => c06::parts(),
         "C10" => c10::parts(),
+        "C11" => c11::parts(),
         "C12" => c12::parts(),
         "C14" => c14::parts(),
         "C15" => c15::parts(),
@@ -21,4 +23,4 @@ pub fn parts_for(property: &str) -> Option<Vec<Box<dyn PartDyn>>> {
     })
 }
 
-pub const ALL: &[&str] = &["C02", "C06", "C10", "C12", "C14", "C15", "C19"];
+pub const ALL: &[&str] = &["C02", "C06", "C10", "C11", "C12", "C14", "C15", "C19"];
